@@ -18,6 +18,7 @@
 import FastPasta.Model.Cli
 import FastPasta.Proofs.Collector
 import FastPasta.Proofs.ScanCount
+import FastPasta.Proofs.ScanSetOnce
 namespace FastPasta
 namespace C14
 
@@ -382,6 +383,246 @@ theorem run_scanner_stats (o : Opts) (ps : List RawPkt) (hwf : ∀ p ∈ ps, WF 
         have hnd : (feesFrom [] ps).Nodup := foldl_addNew_nodup _ [] List.nodup_nil
         have := addNew_nodup [] (feesFrom [] ps) (by simpa using hnd)
         split <;> simp [List.filterMap_cons, inMsgToStat, Stat.feeOf, this]
+
+/-! ### set-once attributes and error totals -/
+open C03
+
+def _root_.FastPasta.Stat.runTriggerOf : Stat → Option Nat | .runTrigger t => some t | _ => none
+def _root_.FastPasta.Stat.dataFormatOf : Stat → Option Nat | .dataFormat t => some t | _ => none
+def _root_.FastPasta.Stat.systemIdOf : Stat → Option Nat | .systemId t => some t | _ => none
+def _root_.FastPasta.Stat.rdhVersionOf : Stat → Option Nat | .rdhVersion t => some t | _ => none
+
+/-- last write wins -/
+def lastOr (l : List Nat) (d : Option Nat) : Option Nat := l.foldl (fun _ x => some x) d
+
+theorem step_runTrigger (cap : Nat) (c : Coll) (m : Stat) :
+    (c.step cap m).runTrigger = (match m.runTriggerOf with | some t => some t | none => c.runTrigger) := by
+  cases m <;> simp only [Coll.step, Stat.runTriggerOf] <;> (repeat' split) <;> rfl
+theorem step_dataFormat (cap : Nat) (c : Coll) (m : Stat) :
+    (c.step cap m).dataFormat = (match m.dataFormatOf with | some t => some t | none => c.dataFormat) := by
+  cases m <;> simp only [Coll.step, Stat.dataFormatOf] <;> (repeat' split) <;> rfl
+theorem step_systemId (cap : Nat) (c : Coll) (m : Stat) :
+    (c.step cap m).systemId = (match m.systemIdOf with | some t => some t | none => c.systemId) := by
+  cases m <;> simp only [Coll.step, Stat.systemIdOf] <;> (repeat' split) <;> rfl
+theorem step_rdhVersion (cap : Nat) (c : Coll) (m : Stat) :
+    (c.step cap m).rdhVersion = (match m.rdhVersionOf with | some t => some t | none => c.rdhVersion) := by
+  cases m <;> simp only [Coll.step, Stat.rdhVersionOf] <;> (repeat' split) <;> rfl
+
+theorem run_field (proj : Coll → Option Nat) (f : Stat → Option Nat) (cap : Nat)
+    (hstep : ∀ c m, proj (c.step cap m) = (match f m with | some t => some t | none => proj c)) (ms : List Stat) :
+    ∀ c : Coll, proj (Coll.run cap c ms) = lastOr (ms.filterMap f) (proj c) := by
+  induction ms with
+  | nil => intro c; rfl
+  | cons m ms ih =>
+    intro c
+    simp only [Coll.run, List.foldl_cons] at ih ⊢
+    rw [ih (c.step cap m), hstep]
+    cases hf : f m <;> simp [List.filterMap_cons, hf, lastOr]
+
+
+/-- a statistic that does not touch the four run-wide attributes -/
+def _root_.FastPasta.Stat.attrFree (m : Stat) : Bool :=
+  m.runTriggerOf.isNone && m.dataFormatOf.isNone && m.systemIdOf.isNone && m.rdhVersionOf.isNone
+
+theorem filterMap_free {α : Type} (f : Stat → Option α) (ms : List Stat) (h : ∀ m ∈ ms, f m = none) : ms.filterMap f = [] := by
+  induction ms with
+  | nil => rfl
+  | cons m ms ih => simp [List.filterMap_cons, h m (by simp), ih (fun x hx => h x (by simp [hx]))]
+
+theorem analysisBatch_attrFree (sys : Nat) (b : List Packet) : ∀ m ∈ analysisBatch sys b, m.attrFree = true := by
+  intro m hm
+  unfold analysisBatch at hm
+  split at hm
+  · simp only [List.mem_append, List.mem_flatMap, List.mem_singleton] at hm
+    rcases hm with ⟨p, _, hm⟩ | rfl
+    · rcases hm with rfl | hm
+      · rfl
+      · split at hm
+        · simp only [List.mem_singleton] at hm; subst hm; rfl
+        · simp at hm
+    · rfl
+  · split at hm
+    · simp only [List.mem_singleton] at hm; subst hm; rfl
+    · simp only [List.mem_cons, List.not_mem_nil, or_false] at hm
+      rcases hm with rfl | rfl | rfl <;> rfl
+
+theorem analysisMsgs_attrFree (pk : List Packet) : ∀ m ∈ analysisMsgs pk, m.attrFree = true := by
+  intro m hm
+  unfold analysisMsgs at hm
+  split at hm
+  · simp at hm
+  · simp only [List.mem_flatMap] at hm
+    obtain ⟨b, _, hm⟩ := hm
+    exact analysisBatch_attrFree _ b m hm
+
+theorem validator_attrFree (ms : List Msg) : ∀ m ∈ ms.map msgToStat, m.attrFree = true := by
+  intro m hm
+  simp only [List.mem_map] at hm
+  obtain ⟨x, _, rfl⟩ := hm
+  cases x <;> rfl
+
+theorem attrFree_none {m : Stat} (h : m.attrFree = true) :
+    m.runTriggerOf = none ∧ m.dataFormatOf = none ∧ m.systemIdOf = none ∧ m.rdhVersionOf = none := by
+  simp only [Stat.attrFree, Bool.and_eq_true, Option.isNone_iff_eq_none] at h
+  exact ⟨h.1.1.1, h.1.1.2, h.1.2, h.2⟩
+
+/-- only the three announced attributes of the scanner's messages reach the attribute fields -/
+theorem scanner_attr_filter (f : Stat → Option Nat)
+    (hf : ∀ m : InMsg, m.setOnce = false → ∀ x ∈ inMsgToStat m, f x = none) (ms : List InMsg) :
+    (ms.flatMap inMsgToStat).filterMap f = ((ms.filter InMsg.setOnce).flatMap inMsgToStat).filterMap f := by
+  induction ms with
+  | nil => rfl
+  | cons m ms ih =>
+    simp only [List.flatMap_cons, List.filterMap_append, ih]
+    cases hs : m.setOnce with
+    | true => simp [List.filter_cons, hs, List.filterMap_append]
+    | false => simp [List.filter_cons, hs, filterMap_free f _ (hf m hs)]
+
+theorem inMsg_noattr (m : InMsg) (hs : m.setOnce = false) : ∀ x ∈ inMsgToStat m, x.attrFree = true := by
+  intro x hx
+  cases m <;> simp only [InMsg.setOnce, reduceCtorEq] at hs <;> simp only [inMsgToStat, List.mem_singleton] at hx <;> subst hx <;> rfl
+
+
+/-- **C14 (set-once attributes)**: for every input of at least one header that passes the start-up
+    gate — any contents, framing, command, filter, source — the reported run trigger type, data
+    format and RDH version are those of the *first header of the input* (the first 64 bytes), and so
+    is the system ID when it is one of the known detector IDs (otherwise a fatal message is issued
+    instead). They are announced exactly once, so no later header can change them. -/
+theorem run_set_once (o : Opts) (input : Bytes) (hlen : 64 ≤ input.length)
+    (out : Outcome) (h : run o input = .ok out) (hinit : out.initErr = false) :
+    let r0 := decodeRdh (input.take 64)
+    out.fin.coll.runTrigger = some r0.triggerType ∧
+    out.fin.coll.dataFormat = some r0.dataFormat ∧
+    out.fin.coll.rdhVersion = some (bAt input 0) ∧
+    out.fin.coll.systemId = (if validSystemIds.contains r0.systemId then some r0.systemId else none) := by
+  obtain ⟨vm, hfin⟩ := run_form o input out h hinit
+  rw [hfin]
+  simp only [finalize]
+  have hA : ∀ m ∈ (if (o.isCheck || o.isView) = true then analysisMsgs (scanAll o.scanCfg input).packets else []), m.attrFree = true := by
+    intro m hm; split at hm
+    · exact analysisMsgs_attrFree _ m hm
+    · simp at hm
+  have hV := validator_attrFree vm
+  have hS := scanAll_setOnce o.scanCfg input
+  simp only [hlen, ↓reduceIte] at hS
+  generalize hc0 : (if (o.isCheck && o.target == Target.itsStave) = true then ({ alpide := some {} } : Coll) else {}) = c0
+  have hc0f : c0.runTrigger = none ∧ c0.dataFormat = none ∧ c0.rdhVersion = none ∧ c0.systemId = none := by
+    subst hc0; split <;> exact ⟨rfl, rfl, rfl, rfl⟩
+  -- the filterMap of each attribute over the whole arrival list
+  have key : ∀ (f : Stat → Option Nat), (∀ m : Stat, m.attrFree = true → f m = none) →
+      ([Stat.rdhVersion (bAt input 0)] ++
+        (if (o.isCheck || o.isView) = true then analysisMsgs (scanAll o.scanCfg input).packets else []) ++
+        vm.map msgToStat ++ (scanAll o.scanCfg input).msgs.flatMap inMsgToStat).filterMap f =
+      (f (Stat.rdhVersion (bAt input 0))).toList ++
+        ((firstAttrs (decodeRdh (input.take 64))).flatMap inMsgToStat).filterMap f := by
+    intro f hf
+    rw [List.filterMap_append, List.filterMap_append, List.filterMap_append]
+    rw [filterMap_free f _ (fun m hm => hf m (hA m hm)), filterMap_free f _ (fun m hm => hf m (hV m hm))]
+    rw [scanner_attr_filter f (fun m hs x hx => hf x (inMsg_noattr m hs x hx)), hS]
+    cases hv : f (Stat.rdhVersion (bAt input 0)) <;> simp [List.filterMap_cons, hv]
+  have e1 := fun ms => run_field Coll.runTrigger Stat.runTriggerOf o.cap (step_runTrigger o.cap) ms c0
+  have e2 := fun ms => run_field Coll.dataFormat Stat.dataFormatOf o.cap (step_dataFormat o.cap) ms c0
+  have e3 := fun ms => run_field Coll.rdhVersion Stat.rdhVersionOf o.cap (step_rdhVersion o.cap) ms c0
+  have e4 := fun ms => run_field Coll.systemId Stat.systemIdOf o.cap (step_systemId o.cap) ms c0
+  refine ⟨?_, ?_, ?_, ?_⟩
+  · rw [e1, key Stat.runTriggerOf (fun m hm => (attrFree_none hm).1), hc0f.1]
+    simp only [firstAttrs, List.flatMap_cons, List.flatMap_nil, inMsgToStat]
+    split <;> simp [Stat.runTriggerOf, lastOr, List.filterMap_cons]
+  · rw [e2, key Stat.dataFormatOf (fun m hm => (attrFree_none hm).2.1), hc0f.2.1]
+    simp only [firstAttrs, List.flatMap_cons, List.flatMap_nil, inMsgToStat]
+    split <;> simp [Stat.dataFormatOf, lastOr, List.filterMap_cons]
+  · rw [e3, key Stat.rdhVersionOf (fun m hm => (attrFree_none hm).2.2.2), hc0f.2.2.1]
+    simp only [firstAttrs, List.flatMap_cons, List.flatMap_nil, inMsgToStat]
+    split <;> simp [Stat.rdhVersionOf, lastOr, List.filterMap_cons]
+  · rw [e4, key Stat.systemIdOf (fun m hm => (attrFree_none hm).2.2.1), hc0f.2.2.2]
+    simp only [firstAttrs, List.flatMap_cons, List.flatMap_nil, inMsgToStat]
+    split <;> simp [Stat.systemIdOf, lastOr, List.filterMap_cons]
+
+
+def _root_.FastPasta.Stat.errOf : Stat → Option Finding | .error f => some f | _ => none
+
+theorem step_fatal_none (cap : Nat) (c : Coll) (m : Stat) (h : (c.step cap m).fatal = none) : c.fatal = none := by
+  cases m <;> simp only [Coll.step] at h <;> (repeat' split at h) <;> simp_all
+
+theorem run_fatal_none (cap : Nat) (ms : List Stat) : ∀ c : Coll, (Coll.run cap c ms).fatal = none → c.fatal = none := by
+  induction ms with
+  | nil => intro c h; exact h
+  | cons m ms ih => intro c h; exact step_fatal_none cap c m (ih _ h)
+
+theorem step_errors (cap : Nat) (c : Coll) (m : Stat) (hc : c.fatal = none) :
+    (c.step cap m).errors = c.errors ++ m.errOf.toList ∧ (c.step cap m).total = c.total + m.errOf.toList.length := by
+  cases m <;> simp only [Coll.step, Stat.errOf, hc] <;> (repeat' split) <;> simp_all
+
+/-- **error accounting**: when no fatal message was issued, the collector holds exactly the error
+    messages that were sent, in arrival order, and the total is their number -/
+theorem run_errors_nofatal (cap : Nat) (ms : List Stat) : ∀ c : Coll, (Coll.run cap c ms).fatal = none →
+    (Coll.run cap c ms).errors = c.errors ++ ms.filterMap Stat.errOf ∧
+    (Coll.run cap c ms).total = c.total + (ms.filterMap Stat.errOf).length := by
+  induction ms with
+  | nil => intro c _; simp [Coll.run]
+  | cons m ms ih =>
+    intro c h
+    have h' : (Coll.run cap (c.step cap m) ms).fatal = none := h
+    have hc := step_fatal_none cap c m (run_fatal_none cap ms _ h')
+    obtain ⟨e1, e2⟩ := step_errors cap c m hc
+    obtain ⟨i1, i2⟩ := ih _ h'
+    have : Coll.run cap c (m :: ms) = Coll.run cap (c.step cap m) ms := rfl
+    rw [this, i1, i2, e1, e2]
+    cases hm : m.errOf <;> simp [List.filterMap_cons, hm] <;> omega
+
+theorem analysisBatch_noerr (sys : Nat) (b : List Packet) : ∀ m ∈ analysisBatch sys b, m.errOf = none := by
+  intro m hm
+  unfold analysisBatch at hm
+  split at hm
+  · simp only [List.mem_append, List.mem_flatMap, List.mem_singleton] at hm
+    rcases hm with ⟨p, _, hm⟩ | rfl
+    · rcases hm with rfl | hm
+      · rfl
+      · split at hm
+        · simp only [List.mem_singleton] at hm; subst hm; rfl
+        · simp at hm
+    · rfl
+  · split at hm
+    · simp only [List.mem_singleton] at hm; subst hm; rfl
+    · simp only [List.mem_cons, List.not_mem_nil, or_false] at hm
+      rcases hm with rfl | rfl | rfl <;> rfl
+
+theorem analysisMsgs_noerr (pk : List Packet) : ∀ m ∈ analysisMsgs pk, m.errOf = none := by
+  intro m hm
+  unfold analysisMsgs at hm
+  split at hm
+  · simp at hm
+  · simp only [List.mem_flatMap] at hm
+    obtain ⟨b, _, hm⟩ := hm
+    exact analysisBatch_noerr _ b m hm
+
+/-- **C14 (error totals)**: in a run without fatal message the reported error total is the number
+    of findings the validators emitted plus the scanner's [E100]/[E101] messages plus the failed
+    custom checks; the stored error list is those findings sorted stably by offset -/
+theorem run_error_total (o : Opts) (input : Bytes) (out : Outcome) (h : run o input = .ok out) (hinit : out.initErr = false)
+    (hnf : out.fin.coll.fatal = none) :
+    ∃ vm : List Msg,
+      let findings := (vm.map msgToStat).filterMap Stat.errOf ++ ((scanAll o.scanCfg input).msgs.flatMap inMsgToStat).filterMap Stat.errOf
+      out.fin.errors = sortStable findings ∧
+      out.fin.total = findings.length + out.fin.customErrors.length := by
+  obtain ⟨vm, hfin⟩ := run_form o input out h hinit
+  refine ⟨vm, ?_⟩
+  rw [hfin] at hnf ⊢
+  simp only [finalize] at hnf ⊢
+  obtain ⟨e1, e2⟩ := run_errors_nofatal o.cap _ _ hnf
+  have hA : (if (o.isCheck || o.isView) = true then analysisMsgs (scanAll o.scanCfg input).packets else []).filterMap Stat.errOf = [] := by
+    apply filterMap_free
+    intro m hm
+    split at hm
+    · exact analysisMsgs_noerr _ m hm
+    · simp at hm
+  have hc0 : ∀ c0 : Coll, c0 = (if (o.isCheck && o.target == Target.itsStave) = true then ({ alpide := some {} } : Coll) else {}) →
+      c0.errors = [] ∧ c0.total = 0 := by
+    intro c0 hc; subst hc; split <;> exact ⟨rfl, rfl⟩
+  obtain ⟨z1, z2⟩ := hc0 _ rfl
+  rw [e1, e2, z1, z2]
+  simp only [List.filterMap_append, hA, List.nil_append, List.append_nil, List.filterMap_cons, Stat.errOf, List.filterMap_nil, Nat.zero_add]
+  exact ⟨trivial, trivial⟩
 
 end C14
 end FastPasta
